@@ -116,7 +116,9 @@ func NewIPv4Allocator(start, end net.IP) (*IPv4Allocator, error) {
 	if alloc.start > alloc.end {
 		return nil, errors.New("no IPs in the given range to allocate")
 	}
-	alloc.bitmap = bitset.New(uint(alloc.end - alloc.start + 1))
+	// The count is computed as uint: in uint32, end-start+1 wraps to 0 for the
+	// range 0.0.0.0-255.255.255.255
+	alloc.bitmap = bitset.New(uint(alloc.end-alloc.start) + 1)
 
 	return &alloc, nil
 }
